@@ -79,6 +79,13 @@ func (c *pconn) WriteMessage(b []byte) error {
 	if !ok {
 		return nil
 	}
+	if len(r.Upgrade) == 1 && r.Upgrade[0]&0x20 == 0 && (r.Upgrade[0]>>3)&3 != 0 {
+		// stream open / close: acknowledged; stream messages are not used here
+		if (r.Upgrade[0]>>3)&3 != 2 {
+			go c.push(refPbRes(resVal{Seq: r.Seq}))
+		}
+		return nil
+	}
 	if len(r.Upgrade) == 1 && r.Upgrade[0]&0x20 != 0 { // heartbeat
 		c.mu.Lock()
 		c.nPing++
@@ -299,6 +306,12 @@ func (e *poolEnv) startCall(k int, addr, form string, hold bool) {
 			err = c.Error
 		case "ping":
 			err = e.t.Ping(addr)
+		case "stream":
+			var st rpc.Stream
+			st, err = e.t.NewStream(addr, "S.Stream")
+			if err == nil && st != nil {
+				st.Close()
+			}
 		}
 		e.mu.Lock()
 		pc.done, pc.err, pc.reply, pc.t1 = true, err, *reply, time.Now()
@@ -446,7 +459,7 @@ func runPoolScenario(sc poolScenario) *poolResult {
 			nominal = map[string]time.Duration{"short": poolShort, "medium": poolMedium, "long": poolLong}[f[1]]
 		}
 		switch f[0] {
-		case "call", "go", "rt", "ping":
+		case "call", "go", "rt", "ping", "stream":
 			e.startCall(atoi(f[2]), f[1], f[0], false)
 		case "long":
 			e.startCall(atoi(f[2]), f[1], "call", true)
@@ -652,7 +665,7 @@ func checkPool(sc poolScenario, r *poolResult) []connVerdict {
 		if c.carried && c.connID >= 0 && e.conns[c.connID].addr != c.addr {
 			add("C14", "right-address", "C14/wrong-address", fmt.Sprintf("call %d for %s was sent over a connection dialed to %s", k, c.addr, e.conns[c.connID].addr))
 		}
-		if c.done && c.err == nil && c.form != "ping" && !strings.HasPrefix(string(c.reply), c.addr+"|") {
+		if c.done && c.err == nil && c.form != "ping" && c.form != "stream" && !strings.HasPrefix(string(c.reply), c.addr+"|") {
 			add("C14", "right-address", "C14/wrong-server", fmt.Sprintf("call %d for %s was answered by %q", k, c.addr, string(c.reply[:min(len(c.reply), 8)])))
 		}
 	}
@@ -663,7 +676,7 @@ func checkPool(sc poolScenario, r *poolResult) []connVerdict {
 	for i, a := range r.actions {
 		f := strings.Fields(a)
 		switch f[0] {
-		case "call", "go", "rt", "ping", "long":
+		case "call", "go", "rt", "ping", "long", "stream":
 			startAt[atoi(f[2])] = i
 		}
 	}
@@ -723,6 +736,12 @@ func poolCorpus() []poolScenario {
 	mk("dead-while-down", 1, 1, "call A 1", "kill A", "call A 2", "call A 3", "idle medium", "call A 4", "revive A", "call A 5", "call A 6")
 	mk("busy-spared", 2, 2, "long A 1", "idle medium", "closeidle", "idle long", "closeidle", "finish 1", "idle long")
 	mk("closeidle", 3, 3, "long A 1", "long A 2", "long A 3", "finish 2", "closeidle", "finish 1", "finish 3", "idle medium", "closeidle", "call A 4")
+	// several addresses go stale in the same housekeeping pass; then more connections than one are needed per address
+	mk("stale-together-2", 3, 3, "call A 1", "call B 2", "idle medium", "long A 3", "long A 4", "long B 5", "long B 6", "call A 7", "call B 8", "finish 3", "finish 4", "finish 5", "finish 6", "idle long")
+	mk("stale-together-3", 0, 0, "call C 1", "call A 2", "call B 3", "idle medium", "long B 4", "long B 5", "long A 6", "long A 7", "long C 8", "long C 9", "finish 4", "finish 5", "finish 6", "finish 7", "finish 8", "finish 9", "idle medium", "long A 10", "long A 11", "long A 12", "finish 10", "finish 11", "finish 12", "idle long")
+	mk("stale-together-limits", 2, 2, "long A 1", "long A 2", "call B 3", "finish 1", "finish 2", "idle medium", "long B 4", "long B 5", "long A 6", "long A 7", "finish 4", "finish 5", "finish 6", "finish 7", "idle long")
+	mk("stream-sees-the-dead-connection", 1, 1, "call A 1", "kill A", "stream A 2", "stream A 3", "revive A", "stream A 4", "call A 5", "idle long")
+	mk("stream-after-restart", 2, 2, "stream A 1", "kill A", "revive A", "stream A 2", "stream A 3", "stream A 4", "idle medium", "stream A 5", "idle long")
 	mk("multi-addr", 2, 1, "call A 1", "call B 2", "call C 3", "long A 4", "long A 5", "long B 6", "kill B", "call B 7", "finish 4", "finish 5", "idle medium", "revive B", "call B 8", "call A 9", "idle long", "close", "close")
 	mk("close-gated-replacement", 1, 1, "call A 1", "kill A", "revive A", "holdclose", "callnb A 2", "callnb A 3", "relclose", "call A 4")
 	mk("forms", 2, 2, "go A 1", "rt A 2", "ping A 3", "call A 4", "kill A", "go A 5", "rt A 6", "ping A 7", "revive A", "go A 8", "rt A 9", "ping A 10", "call A 11")
@@ -742,7 +761,7 @@ func genPoolScenario(r *prng.R) poolScenario {
 		x := r.Intn(100)
 		switch {
 		case x < 30:
-			sc.Actions = append(sc.Actions, fmt.Sprintf("%s %s %d", []string{"call", "call", "go", "rt", "ping"}[r.Intn(5)], a, next))
+			sc.Actions = append(sc.Actions, fmt.Sprintf("%s %s %d", []string{"call", "call", "go", "rt", "ping", "stream"}[r.Intn(6)], a, next))
 			next++
 		case x < 45:
 			sc.Actions = append(sc.Actions, fmt.Sprintf("long %s %d", a, next))
